@@ -16,14 +16,28 @@ import (
 
 func newTinyCPMMemory() z80.Memory { return tinycpm.NewMemory() }
 
-type conWriter struct{ m *Machine }
+type conWriter struct {
+	m   *Machine
+	gen int
+}
 
 func (c conWriter) Write(p []byte) (int, error) {
 	for _, b := range p {
+		if c.gen != c.m.ConGen {
+			c.m.Stale++
+			continue
+		}
 		c.m.Con = append(c.m.Con, int(b))
 	}
 	return len(p), nil
 }
+
+// a writer that also has WriteByte/WriteString (bytes.Buffer, bufio.Writer and the like)
+type conByteWriter struct{ conWriter }
+
+func (c conByteWriter) WriteByte(b byte) error { c.Write([]byte{b}); return nil }
+
+func (c conByteWriter) WriteString(s string) (int, error) { return c.Write([]byte(s)) }
 
 type warnWriter struct{ m *Machine }
 
@@ -31,14 +45,22 @@ func (c warnWriter) Write(p []byte) (int, error) { c.m.Warn++; return len(p), ni
 
 func newTinyCPMIO(m *Machine) z80.IO {
 	io := tinycpm.NewIO()
-	io.SetStdout(conWriter{m})
+	io.SetStdout(conWriter{m, 0})
+	m.SetCon = func(kind string) {
+		m.ConGen++
+		if kind == "bytew" {
+			io.SetStdout(conByteWriter{conWriter{m, m.ConGen}})
+		} else {
+			io.SetStdout(conWriter{m, m.ConGen})
+		}
+	}
 	io.SetWarnLogger(log.New(warnWriter{m}, "", 0))
 	return io
 }
 
 // EmitCPM writes what the console and the warning logger received.
 func (m *Machine) EmitCPM(w *bufio.Writer, calls string, sp0 int) {
-	fmt.Fprintf(w, `{"e":"cpm","calls":%s,"sp0":%d,"con":%s,"warn":%d}`+"\n", calls, sp0, jInts(m.Con), m.Warn)
+	fmt.Fprintf(w, `{"e":"cpm","calls":%s,"sp0":%d,"con":%s,"warn":%d,"stale":%d}`+"\n", calls, sp0, jInts(m.Con), m.Warn, m.Stale)
 }
 
 // cpmdump prints the non-zero cells of a fresh tinycpm memory (the BIOS blocks).
